@@ -489,7 +489,7 @@ class UidSearchCommand(SearchCommand):
     @classmethod
     def parse(cls, buf: memoryview, params: Params) \
             -> tuple[UidSearchCommand, memoryview]:
-        ret, buf = super().parse(buf, params.copy(uid=True))
+        ret, buf = super().parse(buf, params)
         if not isinstance(ret, UidSearchCommand):
             raise TypeError(ret)
         return ret, buf
